@@ -38,10 +38,13 @@ CLAIMED["C06"] = dict(
     text="Lean 4 theorems on the same model, generic in the guarded state and in the waiters' declared conditions: every release "
          "signals the oldest waiter if there is one (or the releasing waiter is alone with a false condition); signals are not lost; "
          "the waiting list holds exactly the registered, not yet returned waiters (no ghosts, no duplicates); wait() returns False "
-         "only if its till fired; L1: in every quiescent state with the lock free every parked waiter's condition is false.",
+         "only if its till fired; L1: in every quiescent state with the lock free every parked waiter's condition is false; "
+         "C06_runs_terminate/C06_waiters_resume: each Lock operation is a bounded number of own steps, so without new calls "
+         "every schedule reaches such a state within an explicit rank.",
     design="§5 C06", technique="Lean 4 inductive invariant with baton ghosts (hot list, hand) + trace acceptance + trace-level baton monitor",
-    note="Same trusted base as C05. Liveness is stated as 'no bad quiescent state' (L1); bounded progress (L2) does not hold for the "
-         "unchanged code when >=2 threads re-wait (that is the C20 finding), so fair termination is L1 plus fairness, not a ranking.")
+    note="Same trusted base as C05. Liveness is 'no bad quiescent state' (L1) plus termination of the operations in progress "
+         "(rank); across the calls of a `while not cond: lock.wait()` loop bounded progress does not hold for the unchanged code "
+         "when >=2 threads re-wait (the C20 finding), so termination of whole monitor loops is L1 plus fairness.")
 CLAIMED["C20"] = dict(
     text="PARTIAL: proved — a thread parked in Signal.wait() (flag false), Lock.wait() (not signalled, not timed out) or Queue.pop()/"
          "add() (not signalled, not closed, no till / no stall timer of this wait fired; silent and non-silent queues) is disabled; "
